@@ -9,5 +9,5 @@ git -C $wt apply $src/patch.diff || { echo "PATCH DOES NOT APPLY"; git -C /repo 
 (cd $wt && PYTHONPATH=$wt/src timeout 900 /venv/bin/python -m pytest -q -p no:cacheprovider --timeout=900 test 2>&1 | tail -1) > /tmp/conf_t_$$
 run $src/demo.py >/tmp/conf_out2_$$ 2>&1; b=$?
 echo "demo without change: rc=$a ($(tail -1 /tmp/conf_out_$$ | cut -c1-100)) | suite with change: $(cat /tmp/conf_t_$$) | demo with change: rc=$b ($(tail -1 /tmp/conf_out2_$$ | cut -c1-160))"
-git -C /repo worktree remove --force $wt; rm -f /tmp/conf_*_$$
-[ $a -eq 0 ] && [ $b -ne 0 ] && grep -q "70 passed" /tmp/conf_t_$$ 2>/dev/null
+git -C /repo worktree remove --force $wt
+[ $a -eq 0 ] && [ $b -ne 0 ] && grep -q "70 passed" /tmp/conf_t_$$ 2>/dev/null; rc=$?; rm -f /tmp/conf_*_$$; exit $rc
